@@ -24,6 +24,7 @@ ATTACH = {
     "wire": ("src/wire.rs", "wire"),
     "will": ("src/will.rs", "will"),
     "publication": ("src/publication.rs", "publication"),
+    "de": ("src/de/mod.rs", "de"),
     "deserializer": ("src/de/deserializer.rs", "de::deserializer"),
     "received_packet": ("src/de/received_packet.rs", "de::received_packet"),
     "packet_reader": ("src/de/packet_reader.rs", "de::packet_reader"),
